@@ -80,7 +80,7 @@ func respell(s string) string {
 // all numeric limits pairwise distinct, so that a confusion between two limits cannot hide
 func testProtocol(td uint64) protocol.Protocol {
 	return protocol.Protocol{
-		GenesisTime:                  0,
+		GenesisTime:                  11,
 		MultihashAlgorithms:          []uint{sha2_256, sha2_512},
 		MaxOperationCount:            7,
 		MaxOperationSize:             9000,
